@@ -92,6 +92,13 @@ def _case(args):
         if d: f.append(f"recomputed-results-differ:{[a for _, a in d][:4]}")
         if mode != "v9-file":
             j2 = json.loads(json.dumps(system_to_json(s2, save_calculated_attributes=save_calc)))
+            def norm(x):
+                # recorded ancestor / child id lists derive from sets of jobs: their order is not part of the saved model
+                if isinstance(x, dict):
+                    return {k: (sorted(v) if k in ("direct_ancestors_with_id", "direct_children_with_id") and isinstance(v, list) else norm(v)) for k, v in x.items()}
+                if isinstance(x, list): return [norm(v) for v in x]
+                return x
+            j, j2 = norm(j), norm(j2)
             if j2 != j:
                 keys = [k for k in set(j) | set(j2) if j.get(k) != j2.get(k)]
                 f.append(f"re-export-differs:{keys[:3]}")
@@ -122,6 +129,11 @@ def fractional(spec):
 
 def run(tier, seed, procs=16):
     T = H.topologies()
+    # a saved system holds what is reachable from the System object: a job defined on a server but used by no step is not part of
+    # it (nothing of the model depends on it), so it is left out of the round-trip scenarios
+    for spec_ in T.values():
+        used = {j for st in spec_["steps"].values() for j in st["jobs"]}
+        for j in [j for j in spec_["jobs"] if j not in used]: del spec_["jobs"][j]
     items = [("services", "services_system", None, None, m) for m in ("inputs-only", "with-calculated", "v9-file")]
     for tname, spec in T.items():
         for m in ("inputs-only", "with-calculated", "live-edit", "v9-file"):
